@@ -545,6 +545,11 @@ type unmarshalable struct{}
 
 func (unmarshalable) MarshalJSON() ([]byte, error) { return nil, errors.New("cannot marshal") }
 
+// panicMarshal panics while the library encodes it.
+type panicMarshal struct{ id int }
+
+func (p panicMarshal) MarshalJSON() ([]byte, error) { panic("marshal panic " + strconv.Itoa(p.id)) }
+
 // runScript interprets handler behaviour actions.
 func (e *Engine) runScript(s *Submission, script []string, r res.Resource, kind string) {
 	for _, a := range script {
@@ -671,6 +676,15 @@ func (e *Engine) reply(s *Submission, r res.Resource, kind, what string) {
 		r.(interface{ InvalidQuery(string) }).InvalidQuery("bad query " + strconv.Itoa(s.Op.ID) + model.TrickyFor(s.Op.ID))
 	case "methodnotfound":
 		r.(interface{ MethodNotFound() }).MethodNotFound()
+	case "panicmarshal":
+		switch kind {
+		case "get":
+			r.(interface{ Model(interface{}) }).Model(panicMarshal{s.Op.ID})
+		case "access":
+			r.(errT).Error(&res.Error{Code: "test.bad", Message: "x", Data: panicMarshal{s.Op.ID}})
+		default:
+			r.(okT).OK(panicMarshal{s.Op.ID})
+		}
 	case "unmarshalable":
 		switch kind {
 		case "get":
